@@ -5,6 +5,7 @@ import (
 	"errors"
 	"fmt"
 	"math"
+	"os"
 	"strings"
 	"sync"
 	"testing"
@@ -78,7 +79,7 @@ func genN(rt *rapid.T) int {
 func genK(rt *rapid.T, n int, blocking, allowBig bool) int {
 	c := rapid.IntRange(0, 99).Draw(rt, "k_class")
 	switch {
-	case c < 8:
+	case c < 5:
 		return -1 // stop sentinel
 	case c < 60:
 		m := n
@@ -109,6 +110,9 @@ func genOps(rt *rapid.T, maxOps int, allowBig bool) []c24Op {
 		o := c24Op{Kind: "ids", Blocking: rapid.Bool().Draw(rt, "blocking"), N: genN(rt)}
 		if validN(o.N) {
 			o.K = genK(rt, o.N, o.Blocking, allowBig && bigs < 2)
+			if o.K < 0 && !o.Blocking && rapid.IntRange(0, 2).Draw(rt, "keep_nonblocking_stop") != 0 {
+				o.K = 0 // a stop on a non-blocking request ends the history: keep it rare
+			}
 			if o.K > 60000 {
 				bigs++
 			}
@@ -321,6 +325,7 @@ func c24RealReal(x *c24Ctx, ops []c24Op) {
 	var w window
 	var have []txsubmission.TxId // ids received by the inbound side in this session
 	prev := "start"
+	sessions := 1
 	for i, o := range ops {
 		x.cs["failed_at_op"] = i
 		if o.Kind == "txs" {
@@ -366,6 +371,7 @@ func c24RealReal(x *c24Ctx, ops []c24Op) {
 		}
 		// valid request
 		cl.setPlan(o.K)
+		oldInst := server.ProtocolInstance()
 		stuck := w.outstanding > 65535 // the whole backlog cannot be acknowledged in one message
 		var r idsResult
 		select {
@@ -396,7 +402,7 @@ func c24RealReal(x *c24Ctx, ops []c24Op) {
 		e := newEnts[0]
 		rec.Eval()
 		rec.Class("A:request_observed")
-		if w.replied > 0 || o.K < 0 {
+		if w.replied > 0 || o.K < 0 || sessions > 1 {
 			x.nt = true
 		}
 		if e.Blocking != o.Blocking || int(e.Req) != o.N {
@@ -421,21 +427,41 @@ func c24RealReal(x *c24Ctx, ops []c24Op) {
 					rt.Fatalf("op %d %s: RequestTxIds returned ids although the client ended the protocol", i, o)
 				}
 				deadline := time.Now().Add(callWait)
-				for sv.doneCount() == 0 && time.Now().Before(deadline) {
+				for sv.doneCount() < sessions && time.Now().Before(deadline) {
 					time.Sleep(time.Millisecond)
 				}
 				rec.Eval()
-				if sv.doneCount() == 0 {
+				if sv.doneCount() < sessions {
 					rt.Fatalf("op %d %s: the client's stop on a blocking request did not reach the server as Done (err=%v)", i, o, r.err)
 				}
-				x.cs["ended"] = "Done after blocking request"
-				return
+				// new session: the server restarts its protocol instance by itself;
+				// the client is stopped, started and initialised again
+				for server.ProtocolInstance() == oldInst && time.Now().Before(deadline) {
+					time.Sleep(time.Millisecond)
+				}
+				time.Sleep(20 * time.Millisecond)
+				restarted := within(callWait, func() {
+					_ = client.Stop()
+					client.Start()
+					client.Init()
+				})
+				if !restarted || !sv.waitInit(5*time.Second) {
+					rec.Class("A:restart_not_usable")
+					x.cs["ended"] = fmt.Sprintf("Done after blocking request; restart not usable (client errs %v, server errs %v)", p.cliErr.list(), p.srvErr.list())
+					return
+				}
+				rec.Class("A:done_then_new_session")
+				sessions++
+				w = window{}
+				have = nil
+				prev = "new-session"
+				continue
 			}
 			rec.Class("A:stop_on_nonblocking")
 			// must not end the protocol with Done: the connection is torn down instead
 			p.srvErr.waitDone(callWait)
 			rec.Eval()
-			if sv.doneCount() != 0 {
+			if sv.doneCount() >= sessions {
 				x.fail("C24:A:done-on-nonblocking", fmt.Sprintf("op %d %s: the outbound side answered a non-blocking request with Done (server DoneFunc ran)", i, o))
 			}
 			if r.err == nil {
@@ -646,6 +672,7 @@ func c24RawClient(x *c24Ctx, ops []c24Op) {
 		if o.K < 0 && o.Blocking {
 			// raw client ends the session: the inbound side restarts with an empty window
 			rec.Class("B:done_then_new_session")
+			old := server.ProtocolInstance()
 			if err := h.peer.SendMsg(protoTxSubmission, false, xcbor.A(xcbor.U(4)).Encode()); err != nil {
 				rt.Fatalf("send Done: %v", err)
 			}
@@ -658,7 +685,6 @@ func c24RawClient(x *c24Ctx, ops []c24Op) {
 				rt.Fatalf("op %d %s: RequestTxIds returned ids after Done", i, o)
 			}
 			// wait for the restart (a new protocol instance is installed), then re-Init
-			old := server.ProtocolInstance()
 			deadline := time.Now().Add(callWait)
 			for sv.doneCount() < sessions && time.Now().Before(deadline) {
 				time.Sleep(time.Millisecond)
@@ -1033,6 +1059,12 @@ func TestC24(t *testing.T) {
 		desc := fam + ": " + opsDesc(ops)
 		x.cs["history"] = desc
 		rec.Class("family_" + fam)
+		t0 := time.Now()
+		defer func() {
+			if os.Getenv("VERIF_DEBUG") != "" {
+				fmt.Fprintf(os.Stderr, "C24 %s %.2fs ended=%v\n", desc, time.Since(t0).Seconds(), x.cs["ended"])
+			}
+		}()
 		switch fam {
 		case "A":
 			c24RealReal(x, ops)
